@@ -232,6 +232,11 @@ class Ctx:
         helpers.install(reg)
         message.install(reg)
         reader.install(reg)
+        reader.install_socket(reg)
+        reader.install_iter(reg)
+        from .models_io import logging_getlogger_model
+        reg.models["logging.getLogger"] = logging_getlogger_model
+        reg.models["pyubx2.ubxreader.UBXReader.read"] = reader.read_result_model  # as seen by __next__
         try:
             import contracts.instance as instance
             instance.install(reg)
@@ -251,7 +256,39 @@ def _worker_init(tier, seed, verif_dir):
     _CTX = Ctx(tier, seed)
 
 
+class UnitTimeout(BaseException):
+    pass
+
+
+def _alarm(sig, frm):
+    raise UnitTimeout()
+
+
 def _run_unit(unit):
+    from . import extract
+    import signal
+    t0 = time.time()
+    budget = int(os.environ.get("PVC_UNIT_TIMEOUT", "0")) or (900 if (_CTX and _CTX.tier == "quick") else 5400)
+    try:
+        signal.signal(signal.SIGALRM, _alarm)
+        signal.alarm(budget)
+    except (ValueError, AttributeError):
+        pass
+    try:
+        return _run_unit_inner(unit)
+    except UnitTimeout:
+        r = UnitResult(unit.name, unit.kind)
+        r.unsupported.append(f"unit exceeded its time budget of {budget}s (solver or path explosion): undecided")
+        r.wall = time.time() - t0
+        return r
+    finally:
+        try:
+            signal.alarm(0)
+        except (ValueError, AttributeError):
+            pass
+
+
+def _run_unit_inner(unit):
     from . import extract
     t0 = time.time()
     try:
